@@ -14,6 +14,8 @@
 //!   glue …                      `\skip0=…`
 //!   gp w st so sh sho           Display of a `Glue`, `\the\skip2`, and `\skip0=\the\skip2`
 //!   op <adv|mul|div> <int|dim|glue> …   `\advance`, `\multiply`, `\divide` on `\count0`/`\dimen0`/`\skip0`
+//!   tint|tdim|tglue|tidx <flag> <text>  raw text after `\count0=` / `\dimen0=` / `\skip0=` / `\advance\count`
+//!                               (`_` space, `!` = `\count2=5 `): where the constant ends; Lean cuts the text
 //!
 //! I = the real code (direct `common` API and real TeX source through the texlang VM with the
 //! stdlib primitives), M = Lean model, S = Knuth's routines in Lean (`Model/C06Spec.lean`).
@@ -742,6 +744,9 @@ impl Property for C06 {
         v.push("glue m G 65536 131072 2 -3 0".into());
         v.push("glue m I -5 pt plus _ I 7 fil1".into());
         v.push("gp 65536 131072 2 -3 0".into());
+        for c in ["tdim 0 1_.5pt", "tglue 0 1ptplus2_,5fil", "tdim 0 \"A_.5pt", "tdim 0 '7_.5pt", "tint 0 \"1f", "tdim 0 \"10bp", "tdim 0 \"2cc", "tdim 0 \"1dd", "tidx 0 \"2by5", "tglue 0 1ptplus\"Afil", "tint 0 '178", "tint 1 \"1F", "tdim 0 \"Aem"] {
+            v.push(c.to_string());
+        }
         v.push("gp -1073741823 1073741823 3 1 1".into());
         v
     }
@@ -834,6 +839,86 @@ impl Property for C06 {
         for c in b"aAzZ09!?@*" {
             for sg in ["_", "m", "mm"] {
                 v.push(format!("inta {sg} {c}"));
+            }
+        }
+
+        // ---- where a constant ends (TeX §444-§445): every radix × digit strings × what follows immediately
+        // (no space): a-f, A-F (category letter, and category other via \catcode), g-z, G-Z, 8/9/0, units,
+        // keywords, a control sequence, a space, end of input — in integer, dimension, glue and
+        // register-index context. Lean cuts the text (M with parse_constant's decoding, S with §445).
+        {
+            let mut r = rng.fork();
+            let mut followers: Vec<String> = vec![];
+            for c in "abcdefABCDEFglptzGLPTZ890".chars() {
+                followers.push(c.to_string());
+            }
+            for u in ["pt", "bp", "cc", "cm", "dd", "em", "ex", "in", "mm", "pc", "sp", "BP", "CC", "DD", "EM", "EX", "Bp", "cC", "truebp", "truecc", "bp!", "cc!x", "dd_e", "em_f"] {
+                followers.push(u.to_string());
+            }
+            for k in ["by", "plus", "minus", "fil", "fill", "filll", "fillll", "FIL", "true", "to", "depth", "b", "by5"] {
+                followers.push(k.to_string());
+            }
+            // a space ends the number: a decimal point after it does not start a fraction (TeX §448)
+            for x in ["_.5pt", "_,5pt", "_.5", "_.pt", "_.5fil", "_,25fill", "_.99999in", "_.5_pt", ".5_pt", ",5pt", "_._5pt", "_.5truecm", "_.5em"] {
+                followers.push(x.to_string());
+            }
+            for x in ["", "_", "!", "_!", "_f", "_1", ".5", ".5pt", "_a", "__", "\"1", "'7", "-", "+"] {
+                followers.push(x.to_string());
+            }
+            let alphabet: Vec<char> = "abcdefABCDEFglptzGLPTZ0189_".chars().collect();
+            for _ in 0..(if t { 400 } else { 80 }) {
+                let n = r.range(1, 4);
+                followers.push((0..n).map(|_| *r.pick(&alphabet)).collect());
+            }
+            let bases: [(&str, &[&str]); 3] = [
+                ("", &["1", "10", "0", "17", "16383", "9"]),
+                ("'", &["1", "7", "17", "0", "", "377"]),
+                ("\"", &["1", "A", "10", "1F", "0", "", "FF", "2", "B", "AF"]),
+            ];
+            let sign_words = ["", "", "-", "--", "+-_", "_"];
+            let mut n = 0usize;
+            for (pfx, ds) in bases.iter() {
+                for d in ds.iter() {
+                    for f in &followers {
+                        n += 1;
+                        let sg = sign_words[n % sign_words.len()];
+                        let core = format!("{pfx}{d}{f}");
+                        if core.is_empty() {
+                            continue;
+                        }
+                        // category-other A-F only where no keyword could contain an upper-case A-F
+                        let plain_upper = f.len() == 1 || !f.chars().any(|c| ('A'..='F').contains(&c));
+                        let flags: Vec<u32> = if plain_upper && n % 3 == 0 { vec![0, 1] } else if n % 8 == 0 { vec![2] } else { vec![0] };
+                        let unit_pos_cs = f.trim_start_matches('_').starts_with('!');
+                        for fl in flags {
+                            v.push(format!("tint {fl} {sg}{core}"));
+                            if !unit_pos_cs {
+                                v.push(format!("tdim {fl} {sg}{core}"));
+                                match n % 5 {
+                                    0 => v.push(format!("tglue {fl} {sg}{core}")),
+                                    1 => v.push(format!("tglue {fl} 1pt_plus{sg}{core}")),
+                                    2 => v.push(format!("tglue {fl} 1ptplus{core}minus{core}")),
+                                    3 => v.push(format!("tglue {fl} {core}")),
+                                    _ => v.push(format!("tglue {fl} 2.5ptminus{sg}{core}")),
+                                }
+                            }
+                        }
+                    }
+                }
+            }
+            // register index followed by `by` and friends: \advance\count<index><tail>
+            let idx: [&str; 9] = ["2", "02", "3", "1", "0", "\"2", "\"02", "'2", "'3"];
+            let tails = ["by5", "by_5", "by-5", "_5", "by\"A", "by'7", "b5", "a5", "f", "by5a", "BY5", "By_5_x", "by\"1f", "_by5", "e5", "by5bp", "d", "by"];
+            for i in idx {
+                for tl in tails {
+                    v.push(format!("tidx 0 {i}{tl}"));
+                    v.push(format!("tidx 2 {i}{tl}"));
+                }
+                for _ in 0..(if t { 40 } else { 8 }) {
+                    let nn = r.range(1, 4);
+                    let tl: String = (0..nn).map(|_| *r.pick(&alphabet)).collect();
+                    v.push(format!("tidx 0 {i}{tl}5"));
+                }
             }
         }
 
@@ -1488,6 +1573,133 @@ impl Property for C06 {
                 o.nontrivial = nums.iter().any(|x| *x != 0);
                 compare(&mut o, &stream, &got, &model, &spec);
             }
+            "tint" | "tdim" | "tglue" | "tidx" => {
+                // <kind> <flag> <text>: `_` = space, `!` = `\count2=5 `; flag bit0: A-F have catcode 12
+                // (needs \catcode: StdLibState), bit1: also run through StdLibState.
+                let flag: u32 = words[1].parse().expect("flag");
+                let text = words[2];
+                let body: String = text
+                    .chars()
+                    .map(|c| match c {
+                        '_' => " ".to_string(),
+                        '!' => "\\count2=5 ".to_string(),
+                        c => c.to_string(),
+                    })
+                    .collect();
+                let cat12 = flag & 1 != 0;
+                let catpre = if cat12 { "\\catcode`\\A=12 \\catcode`\\B=12 \\catcode`\\C=12 \\catcode`\\D=12 \\catcode`\\E=12 \\catcode`\\F=12 " } else { "" };
+                let src = match kind {
+                    "tint" => format!("{catpre}\\count0={body}"),
+                    "tdim" => format!("{catpre}\\dimen0={body}"),
+                    "tglue" => format!("{catpre}\\skip0={body}"),
+                    _ => format!("{catpre}\\count0=7 \\count1=7 \\count2=7 \\count3=7 \\advance\\count{body}"),
+                };
+                let reply = drv.ask(&format!("{kind} {} {text}", flag & 1));
+                let (m, sp) = split_reply(&reply);
+                // expected: values, nerr, remaining text
+                let parse = |r: &str| -> (Want, String) {
+                    let w: Vec<&str> = r.split_ascii_whitespace().collect();
+                    match w.first().copied() {
+                        Some("ok") => {
+                            let rest = w[w.len() - 1].to_string();
+                            let nums: Vec<i64> = w[1..w.len() - 1].iter().map(|x| x.parse().unwrap()).collect();
+                            let rest_has_cs = rest.contains('!');
+                            let (vals, e) = match kind {
+                                "tint" => (vec![nums[0]], nums[1]),
+                                "tdim" => (vec![nums[0]], nums[1]),
+                                "tglue" => (nums[..5].to_vec(), nums[5]),
+                                _ => {
+                                    // count n advanced by x (only registers 0..3 are observed)
+                                    let mut c = vec![7i64; 4];
+                                    if (0..4).contains(&nums[0]) {
+                                        c[nums[0] as usize] = 7 + nums[1];
+                                    }
+                                    if rest_has_cs {
+                                        c[2] = 5;
+                                    }
+                                    (c, nums[2])
+                                }
+                            };
+                            let mut vals = vals;
+                            if kind != "tidx" {
+                                vals.push(if rest_has_cs { 5 } else { 0 }); // \count2 after the run
+                            }
+                            let out: String = if rest == "~" { String::new() } else { rest.chars().filter(|c| *c != '_' && *c != '!').collect() };
+                            (Want::Vals(vals, e as usize), out)
+                        }
+                        Some("panic") => (Want::Panic, String::new()),
+                        _ => (Want::Undef, String::new()),
+                    }
+                };
+                if kind == "tidx" {
+                    // a register number outside the state's 256 registers is a different error; not this property
+                    let n: Option<i64> = sp.split_ascii_whitespace().nth(1).and_then(|x| x.parse().ok());
+                    if !matches!(n, Some(0..=255)) {
+                        o.tag("tidx:index-out-of-range");
+                        return o;
+                    }
+                }
+                let (model, mout) = parse(m);
+                let (spec, sout) = parse(sp);
+                let observe = |std: bool| -> (Got, String) {
+                    match if std { run_tex_stdlib(&src) } else { run_tex(&src) } {
+                        Err(loc) => (Got::Panic(loc), String::new()),
+                        Ok(obs) => {
+                            let vals = match kind {
+                                "tint" => vec![obs.count[0], obs.count[2]],
+                                "tdim" => vec![obs.dimen[0], obs.count[2]],
+                                "tglue" => {
+                                    let mut v = obs.skip[0].to_vec();
+                                    v.push(obs.count[2]);
+                                    v
+                                }
+                                _ => obs.count.to_vec(),
+                            };
+                            let out: String = obs.out.chars().filter(|c| !c.is_whitespace()).collect();
+                            (Got::Vals(vals, obs.nerr), if obs.fatal.is_some() { format!("{out}<fatal>") } else { out })
+                        }
+                    }
+                };
+                o.tag(format!("{kind}:{}", if cat12 { "AF-catcode-other" } else { "plain" }));
+                // what follows the digits, as a class (first character of the model's/spec's remainder)
+                let first = sout.chars().next();
+                o.tag(format!(
+                    "{kind}:follows:{}",
+                    match first {
+                        None => "end/space/cs".to_string(),
+                        Some(c) if ('a'..='f').contains(&c) => "a-f".into(),
+                        Some(c) if ('A'..='F').contains(&c) => "A-F".into(),
+                        Some(c) if c.is_ascii_lowercase() => "g-z".into(),
+                        Some(c) if c.is_ascii_uppercase() => "G-Z".into(),
+                        Some(c) if c.is_ascii_digit() => "digit".into(),
+                        Some(_) => "other".into(),
+                    }
+                ));
+                let runs: Vec<bool> = if cat12 { vec![true] } else if flag & 2 != 0 { vec![false, true] } else { vec![false] };
+                // defect class: a decimal point after the space that ended a number
+                let class = if (kind == "tdim" || kind == "tglue") && (text.contains("_.") || text.contains("_,")) { "[space-point]" } else { "" };
+                if !class.is_empty() {
+                    o.tag(format!("{kind}:space-then-point"));
+                }
+                for std in runs {
+                    let stream = if std { format!("{kind}-stdlib{class}") } else { format!("{kind}{class}") };
+                    let (got, out) = observe(std);
+                    if out.ends_with("<fatal>") {
+                        // the input ended inside a number or keyword: a fatal error in the code, outside the property
+                        o.tag(format!("{kind}:fatal-end-of-input"));
+                        continue;
+                    }
+                    classify_tags(&mut o, kind, &got, &spec);
+                    compare(&mut o, &stream, &got, &model, &spec);
+                    if let Got::Vals(..) = got {
+                        if spec != Want::Undef && out != sout {
+                            o.fail(Kind::ImplVsSpec, &stream, format!("{stream}: text after the constant"), format!("{src}: typeset {out:?}; TeX leaves {sout:?} (model {mout:?})"));
+                        } else if spec != Want::Undef && out != mout {
+                            o.fail(Kind::ImplVsModel, &stream, format!("{stream}: model text"), format!("{src}: typeset {out:?}; model {mout:?}"));
+                        }
+                    }
+                }
+            }
             other => panic!("bad case kind {other:?}"),
         }
         o
@@ -1496,6 +1708,20 @@ impl Property for C06 {
     fn shrink(&self, case: &str) -> Vec<String> {
         let words: Vec<&str> = case.split_ascii_whitespace().collect();
         let mut out = vec![];
+        if matches!(words.first(), Some(&"tint") | Some(&"tdim") | Some(&"tglue") | Some(&"tidx")) && words.len() == 3 {
+            let tx: Vec<char> = words[2].chars().collect();
+            for i in (0..tx.len()).rev() {
+                let mut c = tx.clone();
+                c.remove(i);
+                if !c.is_empty() {
+                    out.push(format!("{} {} {}", words[0], words[1], c.iter().collect::<String>()));
+                }
+            }
+            if words[1] != "0" {
+                out.push(format!("{} 0 {}", words[0], words[2]));
+            }
+            return out;
+        }
         if words.first() == Some(&"psr") {
             // a failing range → its single values
             if let (Ok(a), Ok(b), Ok(c)) = (words[1].parse::<i64>(), words[2].parse::<i64>(), words[3].parse::<i64>()) {
